@@ -410,7 +410,7 @@ class StmtMixin:
                                 locs += getattr(w, "external_mods", lambda n: [])("self." + f.attr)
                         elif (isinstance(f.value, ast.Attribute) and isinstance(f.value.value, ast.Name)
                               and f.value.value.id == "self" and f.value.attr in w.self_fields):
-                            if f.attr in ("add", "discard", "update", "clear", "append", "put", "put_nowait", "extend", "pop", "remove", "setdefault", "popleft", "difference_update"):
+                            if f.attr in ("add", "discard", "update", "clear", "append", "put", "put_nowait", "get", "extend", "pop", "remove", "setdefault", "popleft", "difference_update"):
                                 locs.append("self." + f.value.attr)
                         else:
                             locs += getattr(w, "external_mods", lambda n: [])("." + f.attr)
@@ -595,7 +595,7 @@ class StmtMixin:
                     outs += self.exec_block(node.orelse, sx)
                 else:
                     outs.append(Outcome("fall", sx))
-        if not spec.decreases and not self.allow_nonterminating:
+        if not spec.decreases and not (self.allow_nonterminating or getattr(self.contract, "nonterminating", None)):
             self.oblige(st, "decreases", f"loop{ordn}:missing-measure", z3.BoolVal(False), node)
         return outs
 
